@@ -25,8 +25,11 @@ class BoxUniform(distributions.Independent):
                                              reinterpret as event dims.
         """
 
+        # validate_args=False: log_prob must return -inf (not raise) outside the box.
         super().__init__(
-            distributions.Uniform(low=low, high=high), reinterpreted_batch_ndims
+            distributions.Uniform(low=low, high=high, validate_args=False),
+            reinterpreted_batch_ndims,
+            validate_args=False,
         )
 
 
